@@ -58,6 +58,7 @@ TRUSTED_EXTRA = ["recording proxy for the `random` names resolved by the modules
 NOTES = ["scripted generators are labelled cls=…:script; every other case draws from CPython's Mersenne twister"]
 
 MODULES = (RF, RX, SH)
+SYS_MAXSIZE = 2 ** 63 - 1       # the model's `sysMaxsize`; the huge suite asserts it equals sys.maxsize
 
 
 # ------------------------------------------------------------------ recording proxy
@@ -72,6 +73,10 @@ class RecordingRandom:
         self.replaying = False
         self.pos = 0
         self.unknown = []
+        self.bigvals = []         # answers given to randint(1, n) with n > sys.maxsize (scripted "dup" mode)
+
+    def _dup(self):
+        return self.script is not None and self.script.get("dup") is not None
 
     # -- helpers
     def _scripted(self, shape):
@@ -111,6 +116,8 @@ class RecordingRandom:
         n = len(seq)
         shape = ("choice", n)
         i = self._scripted(shape) if self.script is not None else None
+        if i is None and self._dup() and n > 0 and self.script["rng"].random() < self.script["dup"]:
+            i = 0                 # legal: a position of seq
         if i is None:
             v = _real_random.choice(seq)
             i = next(j for j, x in enumerate(seq) if x is v or x == v)
@@ -122,8 +129,18 @@ class RecordingRandom:
     def randint(self, a, b):
         shape = ("randint", a, b)
         v = self._scripted(shape) if self.script is not None else None
+        if v is None and self._dup() and a <= b:
+            # legal answers (within [a, b]) that REPEAT: the rejection loop of sample_variables beyond sys.maxsize
+            # sees a value it already has, and the clause/parity loop sees a candidate it already has
+            if a == 1 and b > SYS_MAXSIZE:
+                if self.bigvals and self.script["rng"].random() < self.script["dup"]:
+                    v = self.script["rng"].choice(self.bigvals)
+            elif self.script["rng"].random() < self.script["dup"]:
+                v = a
         if v is None:
             v = _real_random.randint(a, b)
+        if a == 1 and b > SYS_MAXSIZE and v not in self.bigvals:
+            self.bigvals.append(v)
         self.events.append(("randint", a, b, v))
         self.iter_cur.append((shape, v))
         self.pos += 1
@@ -218,6 +235,11 @@ def compatible_parities(k, n, planted):
     if k > n:
         return 0
     pls = [set(a) for a in planted]
+    if not pls:
+        c = 1
+        for i in range(k):
+            c = c * (n - i) // (i + 1)
+        return 2 * c
     cnt = 0
     for dom in itertools.combinations(range(1, n + 1), k):
         for b in (0, 1):
@@ -250,7 +272,9 @@ class Exec:
         cls = OPB if info.get("opb") else CNF
         script = None
         if info.get("script"):
-            script = {"p": info["script"]["p"], "rng": sub_rng(info["script"]["sseed"], "script")}
+            script = {"p": info["script"].get("p", 0.0), "rng": sub_rng(info["script"]["sseed"], "script")}
+            if info["script"].get("dup") is not None:
+                script["dup"] = info["script"]["dup"]
         proxy = RecordingRandom(script)
         self.proxy = proxy
         self.events = proxy.events
@@ -305,6 +329,15 @@ class Exec:
     def path(self):
         """sparse = the rejection loop delivered; dense = fell through to random.sample(fullset, m)"""
         self.run()
+        if isinstance(self.exc, OverflowError):
+            # where it was raised (function names of the traceback, not the message): inside the dense enumeration
+            # (known finding C13-H1) or anywhere else
+            names, tb = set(), self.exc.__traceback__
+            while tb is not None:
+                names.add(tb.tb_frame.f_code.co_name)
+                tb = tb.tb_next
+            dense = names & {"all_clauses", "all_good_parities"}
+            return "overflow-dense" if dense and self.info["n"] > SYS_MAXSIZE else "overflow"
         if self.exc is not None:
             return "error"
         ev = [e for e in self.events if e[0] != "seed"]
@@ -516,6 +549,8 @@ def reseed_oracle(info):
 
 # ------------------------------------------------------------------ cases
 def label(info):
+    if info["n"] > SYS_MAXSIZE:
+        return "huge:" + info["gen"]
     parts = [info["gen"], info.get("via", "lib")]
     parts.append("script" if info.get("script") else ("seedarg" if info.get("seed") is not None else "global"))
     return ":".join(parts)
@@ -549,6 +584,27 @@ def planted_sets(rng, n):
     b = total_assignment(rng, n)
     c = total_assignment(rng, n)
     return [[], [a], [a, b], [a, [-l for l in a]], [a, list(a)], [a, b, c]]
+
+
+def huge_infos(rng, count):
+    """n in {2^63, 2^63+5, 2^70}, k <= 5, m <= 6; planted assignments as partial lists; real and repeating draws"""
+    for i in range(count):
+        gen = ("kcnf", "kxor")[i % 2]
+        n = rng.choice([2 ** 63, 2 ** 63 + 5, 2 ** 70])
+        k = rng.choice([0, 1, 1, 2, 3, 4, 5])
+        m = rng.randint(0, 6)
+        planted = rng.choice([None, [], [], [[1]], [[1, -2, 3]], [[-1, 2], [1, -2, 4]], [[n, -1]]])
+        if gen == "kxor" and planted and k > 0 and rng.random() < 0.7:
+            planted = []          # a partial assignment makes parity_satisfied raise at once (outside the property)
+        info = {"gen": gen, "k": k, "n": n, "m": m, "planted": planted, "gseed": rng.randint(0, 2 ** 31)}
+        mode = rng.random()
+        if mode < 0.4:
+            info["seed"] = rng.choice([0, 1, -5, rng.randint(0, 2 ** 40)])
+        elif mode < 0.7:
+            info["script"] = {"dup": rng.choice([0.3, 0.6, 0.9]), "sseed": rng.randint(0, 2 ** 31)}
+        if rng.random() < 0.08:
+            info["opb"] = True
+        yield info
 
 
 def m_values(mx):
@@ -585,6 +641,19 @@ CORPUS = [
     ("shape", {"gen": "kxor", "k": 4, "n": 3, "m": 0, "seed": 1, "planted": []}),
     ("shape", {"gen": "kxor", "k": 1, "n": 2, "m": 1, "seed": 1, "planted": [[1]]}),     # partial planted: outside the property
     ("shape", {"gen": "kcnf", "k": 1, "n": 2, "m": 1, "seed": 1, "planted": [[1]]}),
+    # beyond sys.maxsize variables: sample_variables picks one randint(1, n) at a time
+    ("huge", {"gen": "kcnf", "k": 3, "n": 2 ** 63, "m": 4, "seed": 1, "planted": []}),
+    ("huge", {"gen": "kcnf", "k": 5, "n": 2 ** 70, "m": 6, "gseed": 2, "planted": [[1, -2, 3]]}),   # partial planted list
+    ("huge", {"gen": "kxor", "k": 3, "n": 2 ** 63 + 5, "m": 4, "seed": 1, "planted": []}),
+    ("huge", {"gen": "kxor", "k": 0, "n": 2 ** 63, "m": 2, "seed": 1, "planted": [[1]]}),
+    ("huge", {"gen": "kcnf", "k": 2, "n": 2 ** 63, "m": 3, "gseed": 5, "planted": [],
+              "script": {"dup": 0.5, "sseed": 4}}),                                    # repeated randint answers
+    ("huge", {"gen": "kcnf", "k": 2 ** 63 + 1, "n": 2 ** 63, "m": 1, "seed": 1, "planted": []}),   # k > n
+    # defect C13-H1 (known finding): the dense fallback beyond sys.maxsize raises OverflowError
+    ("huge", {"gen": "kcnf", "k": 0, "n": 2 ** 63, "m": 2, "seed": 1, "planted": []}),
+    ("huge", {"gen": "kxor", "k": 0, "n": 2 ** 63, "m": 3, "seed": 1, "planted": []}),
+    ("huge", {"gen": "kcnf", "k": 1, "n": 2 ** 63, "m": 2, "gseed": 5, "planted": [],
+              "script": {"dup": 1.0, "sseed": 4}}),
     ("cli", {"gen": "kcnf", "via": "cli", "plant": True, "k": 2, "n": 3, "m": 9, "gseed": 4}),
     ("cli", {"gen": "kcnf", "via": "cli", "plant": True, "k": 2, "n": 3, "m": 10, "gseed": 4}),
     ("cli", {"gen": "kxor", "via": "cli", "plant": True, "k": 2, "n": 3, "m": 3, "gseed": 4}),
@@ -640,6 +709,13 @@ def cases(ctx):
                         if rng.random() < 0.1 and not planted:
                             info["planted"] = None       # the default argument
                         out.append(build("shape", info))
+
+    # beyond sys.maxsize variables (the rejection branch of sample_variables)
+    import sys as _sys
+    assert _sys.maxsize == SYS_MAXSIZE, "the model's sysMaxsize is that of 64-bit CPython"
+    rng = sub_rng(seed, "C13", "huge")
+    for info in huge_infos(rng, 60 if thorough else 24):
+        out.append(build("huge", info))
 
     # the dense path with the real generator: many compatible clauses, most candidates rejected
     rng = sub_rng(seed, "C13", "dense")
@@ -767,6 +843,16 @@ def search(ctx, case):
     _SEARCHED[key] = None
     rng = sub_rng(ctx["seed"], "C13", "search")
     suite = case.suite
+    if case.info["n"] > SYS_MAXSIZE:
+        for cand in [dict(case.info)] + list(huge_infos(rng, 300)):
+            if cand["k"] == 0 or (cand.get("script") or {}).get("dup") == 1.0:
+                continue          # the known finding C13-H1 is not what broke the correspondence
+            c = build("huge", cand)
+            r = common.run_oracle(c)
+            if r is not None and c.ex.path() != "overflow-dense":
+                _SEARCHED[key] = {"suite": "huge", "info": cand, "failure": r}
+                return _SEARCHED[key]
+        return None
     for cand in neighbourhood(case.info, rng, 3000 if ctx["tier"] == "thorough" else 800):
         if suite == "reseed" and cand.get("via") is None:
             cand.setdefault("seed", rng.randint(0, 2 ** 31))     # scripted candidates too: called twice with one seed
